@@ -100,11 +100,9 @@ pub fn run(r: &mut Rng, n: usize, out: &mut Out) {
         m.answers = sec(r, 5);
         m.authority = sec(r, 4);
         m.additional = sec(r, 4);
-        let res = verif_validate_nameserver_response(&q, &m, mc);
-        out.case(
-            &["upstream.validate", &c::question(&q), &mc.to_string(), &c::message(&m)],
-            &nsresp_text(&res),
-        );
+        let (q2, m2) = (q.clone(), m.clone());
+        let text = crate::watch::text(10, move || nsresp_text(&verif_validate_nameserver_response(&q2, &m2, mc)));
+        out.case(&["upstream.validate", &c::question(&q), &mc.to_string(), &c::message(&m)], &text);
         // header matching
         if r.chance(1, 3) {
             let req = Message::from_question(r.next_u64() as u16, q.clone());
